@@ -1,6 +1,7 @@
 package main
 
 import (
+	"runtime/pprof"
 	"encoding/json"
 	"flag"
 	"fmt"
@@ -30,7 +31,15 @@ func main() {
 	trace := flag.Bool("trace", false, "trace calls")
 	logsmt := flag.String("logsmt", "", "directory for SMT logs")
 	list := flag.Bool("list", false, "list harnesses")
+	cpuprof := flag.String("cpuprofile", "", "write a CPU profile here")
 	flag.Parse()
+	if *cpuprof != "" {
+		f, err := os.Create(*cpuprof)
+		if err == nil {
+			pprof.StartCPUProfile(f)
+			defer pprof.StopCPUProfile()
+		}
+	}
 
 	overlay := map[string][]byte{}
 	if *overlayF != "" {
